@@ -9,6 +9,7 @@ for p in sys.argv[5:]:
     d["cold"] = d["configuration"].endswith("-cold")
     allparts.append(d)
 parts = [p for p in allparts if p.get("source", "rnd") != "sys"]
+soak = [p for p in parts if str(p.get("source", "")).startswith("soak")]
 sysparts = [p for p in allparts if p.get("source") == "sys"]
 tot = lambda k: sum(p[k] for p in parts)
 fk = lambda k: sum(p["faults_fired"][k] for p in parts)
@@ -25,7 +26,7 @@ ev = {
  "coverage": {
   "evaluations": tot("runs") + sum(p["runs"] for p in sysparts),
   "distinct_nontrivial": tot("distinct_nontrivial_runs"),
-  "rule": "one evaluation = one simulated run: 1-4 real caller threads (only one runs at a time; the simulator decides at every seam call, at every operation boundary and - in about half of the multi-threaded runs - at every allocation made inside a serialisation or deserialisation (and, in the f64-serde-fnseam configuration, at every function entry and atomic operation of the library), who proceeds), each performing 1-5 round trips (serialise a quantity value / a unit / several values in one container, then deserialise the result) through one of four routes: the simulator's own serde Serializer and Deserializer over a lossless data-model tree (every call the library's Serialize / Deserialize impl makes into it is a seam call), serde_json::to_writer / from_reader over a simulated io::Write / io::Read (every write / read is a seam call; short writes and reads and ErrorKind::Interrupted on top), serde_json::to_string / from_str, serde_json::to_value / from_value. A seam call is a scheduling point, a fault point (error from then on; panic caught by the caller; for readers also premature end of stream) and a re-entrancy point (the seam itself round-trips another value on the same thread). Everything is derived from the run seed = f(VERIF_SEED, run index). A run is non-trivial if the simulation dimension was exercised in it: a thread switch in the middle of an operation, a fired fault, or a re-entrant round trip; runs are distinct by (operation lists, schedule trace) hash. Oracle: every serialisation whose seam never faulted must complete Ok; a bare unit must serialise as its variant name; deserialising the result through a seam that never faulted must complete Ok and give back the identical unit(s) and bit-identical amount(s); within a run two values of one type (and container shape) that differ in unit or amount must not share a serialisation.",
+  "rule": "one evaluation = one simulated run: 1-4 real caller threads (only one runs at a time; the simulator decides at every seam call, at every operation boundary and - in about half of the multi-threaded runs - at every allocation made inside a serialisation or deserialisation (and, in the f64-serde-fnseam configuration, at every function entry and atomic operation of the library), who proceeds), each performing 1-5 round trips (serialise a quantity value / a unit / several values in one container, then deserialise the result) through one of four routes (plus, per type, one 'soak' run: a single thread round-tripping values and units of that type more than a million times over in one process): the simulator's own serde Serializer and Deserializer over a lossless data-model tree (every call the library's Serialize / Deserialize impl makes into it is a seam call), serde_json::to_writer / from_reader over a simulated io::Write / io::Read (every write / read is a seam call; short writes and reads and ErrorKind::Interrupted on top), serde_json::to_string / from_str, serde_json::to_value / from_value. A seam call is a scheduling point, a fault point (error from then on; panic caught by the caller; for readers also premature end of stream) and a re-entrancy point (the seam itself round-trips another value on the same thread). Everything is derived from the run seed = f(VERIF_SEED, run index). A run is non-trivial if the simulation dimension was exercised in it: a thread switch in the middle of an operation, a fired fault, or a re-entrant round trip; runs are distinct by (operation lists, schedule trace) hash. Oracle: every serialisation whose seam never faulted must complete Ok; a bare unit must serialise as its variant name; deserialising the result through a seam that never faulted must complete Ok and give back the identical unit(s) and bit-identical amount(s); within a run two values of one type (and container shape) that differ in unit or amount must not share a serialisation.",
   "samples": samples,
   "simulated_runs": tot("runs") + sum(p["runs"] for p in sysparts),
   "seeded_search_runs": tot("runs"),
@@ -34,6 +35,7 @@ ev = {
     "exhaustive": True,
     "per_configuration": [{"configuration": p["configuration"], "plans": p["runs"], "checks_judged": p["ops_judged"], "faults_fired": p["faults_fired"], "thread_switches_inside_an_operation": p["thread_switches_inside_an_operation"], "violations": p["violations"], "wall_s": p["wall_s"]} for p in sysparts],
   },
+  "soak_runs": [{"configuration": p["configuration"], "single_thread_histories": p["runs"], "operations_per_history": int(str(p["source"]).split(":")[1]), "round_trips": p["ops"], "checks_judged": p["ops_judged"], "violations": p["violations"], "wall_s": p["wall_s"]} for p in soak],
   "runs_per_hour": int(tot("runs") / max(sum(p["wall_s"] for p in parts), 1e-9) * 3600),
   "round_trip_operations": tot("ops"),
   "serialisations_and_deserialisations_judged": tot("ops_judged"),
